@@ -65,9 +65,8 @@ structure ReplyInv (R : NApi.Adjustment) : Prop where
   uni : ((uniOf R).map (·.1)).Nodup
   envKeys : EnvKeysOk R
 
-structure StepOk (R a : NApi.Adjustment) : Prop where
+structure StepOk (R a : NApi.Adjustment) : Prop extends LedgerOk R a where
   wf : WellFormedCore a
-  mem : MemFree R a
 
 theorem replyInv_reply0 : ReplyInv reply0 := by
   refine ⟨rfl, ?_, by simp [reply0], by simp [reply0, uniOf, resOf, Result.normRes], ?_⟩
@@ -558,8 +557,148 @@ theorem run_chain (c0 : NApi.Container) (rs : List (Result.Plugin × Option Resu
     (hwf : ∀ a ∈ adjsOf rs, WellFormedCore a) :
     st'.reply = (adjsOf rs).foldl replyStep reply0 ∧ Chain StepOk reply0 (adjsOf rs) := by
   refine ⟨run_reply rs (Result.initCreate c0) st' c0.id rfl h, ?_⟩
-  have h1 := run_memFree rs (Result.initCreate c0) st' c0.id rfl rfl (memHeld_init c0) h
+  have h1 := run_ledgerOk c0 rs st' h
   have h2 : Chain (fun _ a => WellFormedCore a) reply0 (adjsOf rs) := Chain.of_forall hwf
-  exact Chain.mono (fun R a hh => ⟨hh.1, hh.2⟩) (Chain.and h2 h1)
+  exact Chain.mono (fun R a hh => ⟨hh.2, hh.1⟩) (Chain.and h2 h1)
+
+/-! ### the converse for success: combined ok ⇒ sequential ok (inside `WellFormed`) -/
+
+section Converse
+
+/-- converse of `foldE_sim` -/
+theorem foldE_conv {X ε : Type} (G : X → NApi.Adjustment → Except ε X)
+    (I : NApi.Adjustment → Prop) (C : NApi.Adjustment → NApi.Adjustment → Prop)
+    (hI : ∀ R a, I R → C R a → I (replyStep R a))
+    (hstep : ∀ x y1 R a, I R → C R a → G x (replyStep R a) = .ok y1 → ∃ y, G x R = .ok y ∧ G y a = .ok y1)
+    (as : List NApi.Adjustment) (R : NApi.Adjustment) (x z : X) (hR : I R) (hc : Chain C R as)
+    (h : G x (as.foldl replyStep R) = .ok z) :
+    ∃ y, G x R = .ok y ∧ foldE G y as = .ok z := by
+  induction as generalizing R with
+  | nil => exact ⟨z, h, rfl⟩
+  | cons a rest ih =>
+    obtain ⟨h1, h2⟩ := hc
+    simp only [List.foldl_cons] at h
+    obtain ⟨y1, e1, e2⟩ := ih (replyStep R a) (hI R a hR h1) h2 h
+    obtain ⟨y, e3, e4⟩ := hstep x y1 R a hR h1 e1
+    exact ⟨y, e3, by simp only [foldE, e4]; exact e2⟩
+
+theorem cdiAfter_append_conv (has : Bool) (bad : List Str) (x y1 A B : List Str)
+    (h : cdiAfter has bad x (A ++ B) = .ok y1) :
+    ∃ y, cdiAfter has bad x A = .ok y ∧ cdiAfter has bad y B = .ok y1 := by
+  unfold cdiAfter at *
+  cases has
+  · simp only [Bool.not_false, Bool.true_or, if_true] at h ⊢
+    exact ⟨x, rfl, h⟩
+  · simp only [Bool.not_true, Bool.false_or] at *
+    cases A with
+    | nil => simp only [List.nil_append] at h; exact ⟨x, by simp, h⟩
+    | cons a0 as =>
+      simp only [List.cons_append, List.isEmpty_cons, Bool.false_eq_true, if_false] at h ⊢
+      split at h
+      · cases h
+      · rename_i hb
+        cases h
+        have e : a0 :: (as ++ B) = (a0 :: as) ++ B := rfl
+        rw [e, List.any_append] at hb
+        simp only [Bool.or_eq_true, not_or, Bool.not_eq_true] at hb
+        refine ⟨x ++ a0 :: as, by rw [hb.1]; simp, ?_⟩
+        cases B with
+        | nil => simp
+        | cons b0 bs =>
+          simp only [List.isEmpty_cons, Bool.false_eq_true, if_false]
+          rw [hb.2]; simp
+
+theorem blockioG_conv (res : Option (Str → Except Unit Nat)) (x y1 : Option Nat) (R a : NApi.Adjustment)
+    (hR : R.hasLinux = true) (hf : (blockioOf a).isSome → blockioOf R = none)
+    (h : blockioG res x (replyStep R a) = .ok y1) :
+    ∃ y, blockioG res x R = .ok y ∧ blockioG res y a = .ok y1 := by
+  simp only [blockioG, toGen_blockioClass] at h ⊢
+  rw [blockioOf_step R a hR] at h
+  cases ha : blockioOf a with
+  | none =>
+    rw [ha] at h
+    simp only [Option.orElse] at h
+    exact ⟨y1, h, by simp [Resources.applyBlockIO]⟩
+  | some c =>
+    rw [ha] at h
+    simp only [Option.orElse] at h
+    have := hf (by rw [ha]; rfl)
+    rw [this]
+    refine ⟨x, by simp [Resources.applyBlockIO], h⟩
+
+theorem rdtG_conv (res : Option (Str → Except Unit Str)) (x y1 : Option Str) (R a : NApi.Adjustment)
+    (hR : R.hasLinux = true) (hf : (rdtOf a).isSome → rdtOf R = none)
+    (h : rdtG res x (replyStep R a) = .ok y1) :
+    ∃ y, rdtG res x R = .ok y ∧ rdtG res y a = .ok y1 := by
+  simp only [rdtG, toGen_rdtClass] at h ⊢
+  rw [rdtOf_step R a hR] at h
+  cases ha : rdtOf a with
+  | none =>
+    rw [ha] at h
+    simp only [Option.orElse] at h
+    exact ⟨y1, h, by simp [Resources.applyRdt]⟩
+  | some c =>
+    rw [ha] at h
+    simp only [Option.orElse] at h
+    have := hf (by rw [ha]; rfl)
+    rw [this]
+    refine ⟨x, by simp [Resources.applyRdt], h⟩
+
+/-- the sequential application succeeds when its three fallible folds do (no propagation
+    options: `AdjustMounts` cannot fail) -/
+theorem seq_of_parts {ext : Externals} {bad : List Str}
+    (hi : ext.injectCDI = some (recordingInjector bad) ∨ ext.injectCDI = none)
+    (as : List NApi.Adjustment) (hnp : ∀ a ∈ as, a.mounts.all noPropagation = true)
+    (s : Oci.Spec) (hm : NodupKeys Oci.Mount.destination s.mounts)
+    (zc : List Str) (zb : Option Nat) (zr : Option Str)
+    (h1 : foldE (cdiG ext.injectCDI.isSome bad) s.cdi as = .ok zc)
+    (h2 : foldE (blockioG ext.resolveBlockIO) s.blockio as = .ok zb)
+    (h3 : foldE (rdtG ext.resolveRdt) s.rdt as = .ok zr) :
+    ∃ sS, seqAdjust ext s (as.map toGen) = .ok sS := by
+  induction as generalizing s with
+  | nil => exact ⟨s, rfl⟩
+  | cons a rest ih =>
+    simp only [foldE] at h1 h2 h3
+    cases e1 : cdiG ext.injectCDI.isSome bad s.cdi a with
+    | error e => rw [e1] at h1; cases h1
+    | ok c =>
+      cases e2 : blockioG ext.resolveBlockIO s.blockio a with
+      | error e => rw [e2] at h2; cases h2
+      | ok bl =>
+        cases e3 : rdtG ext.resolveRdt s.rdt a with
+        | error e => rw [e3] at h3; cases h3
+        | ok r =>
+          rw [e1] at h1; rw [e2] at h2; rw [e3] at h3
+          have hmnt := mounts_apply_noprop ext.hostPropagation s.mounts s.rootfsPropagation a hm
+            (hnp a (by simp))
+          have hadj := adjust_of_parts hi e1 e2 e3 hmnt
+          simp only [List.map_cons, seqAdjust, hadj]
+          exact ih (fun b hb => hnp b (List.mem_cons_of_mem _ hb)) _ (mntG_nodup _ a hm) h1 h2 h3
+
+/-- **combined ok ⇒ sequential ok** (no propagation options; uses the ledger's single setter of
+    the block-I/O and RDT class) -/
+theorem compose_converse {ext : Externals} {bad : List Str}
+    (hi : ext.injectCDI = some (recordingInjector bad) ∨ ext.injectCDI = none)
+    (as : List NApi.Adjustment) (hc : Chain StepOk reply0 as)
+    (hnp : ∀ a ∈ as, a.mounts.all noPropagation = true)
+    (s0 sC : Oci.Spec) (hs0 : SpecWF s0)
+    (hcomb : adjust ext s0 (toGen (as.foldl replyStep reply0)) = .ok sC) :
+    ∃ sS, seqAdjust ext s0 (as.map toGen) = .ok sS := by
+  obtain ⟨hm0, _, _⟩ := specWF_parts s0 hs0
+  obtain ⟨c, bl, r, mp, p1, p2, p3, _, _⟩ := adjust_ok_parts hi hcomb
+  have hR := replyInv_reply0
+  obtain ⟨y1, a1, b1⟩ := foldE_conv (cdiG ext.injectCDI.isSome bad) ReplyInv StepOk replyInv_step
+    (fun x y1 R a _ _ h => cdiAfter_append_conv _ _ x y1 R.cdiDevices a.cdiDevices h) as reply0 s0.cdi c hR hc p1
+  obtain ⟨y2, a2, b2⟩ := foldE_conv (blockioG ext.resolveBlockIO) ReplyInv StepOk replyInv_step
+    (fun x y1 R a hR hs h => blockioG_conv _ x y1 R a hR.hasLinux hs.blockio h) as reply0 s0.blockio bl hR hc p2
+  obtain ⟨y3, a3, b3⟩ := foldE_conv (rdtG ext.resolveRdt) ReplyInv StepOk replyInv_step
+    (fun x y1 R a hR hs h => rdtG_conv _ x y1 R a hR.hasLinux hs.rdt h) as reply0 s0.rdt r hR hc p3
+  rw [cdiG_reply0] at a1
+  rw [blockioG_reply0] at a2
+  rw [rdtG_reply0] at a3
+  cases a1; cases a2; cases a3
+  exact seq_of_parts hi as hnp s0 hm0 c bl r b1 b2 b3
+
+end Converse
 
 end Nri.Compose
